@@ -232,3 +232,353 @@ Example C05_li_program_example :
   exists r, assemble_items [({| lfile := "f"; lnum := 1 |}, IPseudo "li" ["t0"; "0x12345678"] (POk (EArith (ANum 305419896))))]%string [] [] false = Done r
             /\ flat_map PseudoEmit.chunk_bytes (r_chunks r) = [183; 82; 52; 18; 147; 130; 130; 103].
 Proof. eexists. split; vm_compute; reflexivity. Qed.
+
+(* ==== the COMPRESSED rendering (compress = true) ================================================================================
+   With compression on, the second compression pass (compress_rule on every instruction the pseudo-instruction expanded to) may
+   replace each 32-bit instruction by a 16-bit one (c.li, c.lui, c.addi, c.addi16sp, c.mv, c.nop, c.jr, c.jalr ...).  The theorems
+   below take the ONE-LINE program through all 16 passes of assemble_items with compress = true and run the output bytes on the
+   fetching Spec machine (which decodes 16-bit parcels by Spec/RVC.v decode16 + expand_c).  Proofs: Proofs/PseudoCompressed.v
+   (per instruction shape: whatever compress_rule returns executes like the 32-bit instruction taken with the new length --
+   Proofs/RuleStep.v rule_step = the C04 rule sweeps + C02 + halfword fetch), Proofs/CodeLine.v (the pipeline on the one-line
+   program).  The effect of a compressed instruction is the documented one WITH ITS OWN LENGTH: the pc advances by 2 and a link
+   register receives pc + 2. *)
+From BB Require Proofs.PseudoCompressed.
+
+(* li rd, e: mirrors C05_li_program.  The output is 2 (c.li), 4 (addi | c.lui + c.addi / c.mv), 6 or 8 bytes long; running it
+   (1 or 2 instructions) leaves value mod 2^32 in rd (x0 stays 0), changes no other register and no memory, pc advances by the
+   length of the emitted code. *)
+Theorem C05_li_program_compressed : forall l rd rest e r,
+  assemble_items [(l, IPseudo "li" (rd :: rest) (POk e))] [] [] true = Done r ->
+  exists n nrd v len, regnum (AStr rd) = Some nrd /\ eval_here l 0 [] [] e = Done v /\ (n = 1 \/ n = 2)%nat /\
+    In len [2; 4; 6; 8] /\ zlen (flat_map PseudoEmit.chunk_bytes (r_chunks r)) = len /\
+    forall s, loaded s (flat_map PseudoEmit.chunk_bytes (r_chunks r)) ->
+      exists s', run_n n s = Some s' /\ pc s' = wrap (pc s + len) /\ only_reg s s' nrd (wrap v).
+Proof. exact PseudoCompressed.li_program_compressed. Qed.
+
+(* mv not neg seqz snez sltz sgtz (mv may become c.mv; the others have no applicable rule or are kept) *)
+Theorem C05_unary_program_compressed : forall name f, In (name, f) unary_doc ->
+  forall l rd rs pimm r,
+  assemble_items [(l, IPseudo name [rd; rs] pimm)] [] [] true = Done r ->
+  exists nrd nrs len, regnum (AStr rd) = Some nrd /\ regnum (AStr rs) = Some nrs /\ (len = 2 \/ len = 4) /\
+    zlen (flat_map PseudoEmit.chunk_bytes (r_chunks r)) = len /\
+    forall s, loaded s (flat_map PseudoEmit.chunk_bytes (r_chunks r)) ->
+      exists s', run_n 1 s = Some s' /\ pc s' = wrap (pc s + len) /\ only_reg s s' nrd (f (getr s nrs)).
+Proof. exact PseudoCompressed.unary_program_compressed. Qed.
+
+Theorem C05_nop_program_compressed : forall l args pimm r,
+  assemble_items [(l, IPseudo "nop" args pimm)] [] [] true = Done r ->
+  exists len, (len = 2 \/ len = 4) /\ zlen (flat_map PseudoEmit.chunk_bytes (r_chunks r)) = len /\
+    forall s, loaded s (flat_map PseudoEmit.chunk_bytes (r_chunks r)) ->
+      exists s', run_n 1 s = Some s' /\ pc s' = wrap (pc s + len) /\ no_reg s s'.
+Proof. exact PseudoCompressed.nop_program_compressed. Qed.
+
+(* jr / jalr (c.jr / c.jalr): jump to the address in rs, bit 0 cleared; link none / x1 <- pc + length *)
+Theorem C05_jr_jalr_program_compressed : forall name link, In (name, link) jumpr_doc ->
+  forall l rs pimm r,
+  assemble_items [(l, IPseudo name [rs] pimm)] [] [] true = Done r ->
+  exists nrs len, regnum (AStr rs) = Some nrs /\ (len = 2 \/ len = 4) /\
+    zlen (flat_map PseudoEmit.chunk_bytes (r_chunks r)) = len /\
+    forall s, loaded s (flat_map PseudoEmit.chunk_bytes (r_chunks r)) ->
+      exists s', run_n 1 s = Some s' /\ pc s' = getr s nrs - getr s nrs mod 2 /\ only_reg s s' link (wrap (pc s + len)).
+Proof. exact PseudoCompressed.jumpr_program_compressed. Qed.
+
+Theorem C05_ret_program_compressed : forall l args pimm r,
+  assemble_items [(l, IPseudo "ret" args pimm)] [] [] true = Done r ->
+  exists len, (len = 2 \/ len = 4) /\ zlen (flat_map PseudoEmit.chunk_bytes (r_chunks r)) = len /\
+    forall s, loaded s (flat_map PseudoEmit.chunk_bytes (r_chunks r)) ->
+      exists s', run_n 1 s = Some s' /\ pc s' = getr s 1 - getr s 1 mod 2 /\ no_reg s s'.
+Proof. exact PseudoCompressed.ret_program_compressed. Qed.
+
+Definition C05_compressed_theorems := (C05_li_program_compressed, C05_unary_program_compressed, C05_nop_program_compressed,
+  C05_jr_jalr_program_compressed, C05_ret_program_compressed).
+Print Assumptions C05_compressed_theorems.
+
+(* concrete runs of the compressed rendering, computed in the kernel: the one-line program through assemble_items with
+   compress = true, its bytes loaded at base into a machine whose register x_r holds 1000 + r, n instructions executed;
+   result: (output bytes, x_r for the registers asked, pc) *)
+Definition ex_run_c (name : string) (args : list string) (pimm : pres expr) (n : nat) (base : Z) (ask : list Z)
+  : option (list Z * list Z * Z) :=
+  match assemble_items [(ex_line, IPseudo name args pimm)] [] [] true with
+  | Done r => let bs := flat_map PseudoEmit.chunk_bytes (r_chunks r) in
+              match run_n n (ex_state base bs) with
+              | Some s' => Some (bs, map (getr s') ask, pc s')
+              | None => None
+              end
+  | _ => None
+  end.
+(* li a0, 5 -> c.li a0, 5 *)
+Example C05_ex_c_li : ex_run_c "li" ["a0"; "5"] (lit 5) 1 4096 [10; 11] = Some ([21; 69], [5; 1011], 4098).
+Proof. vm_compute. reflexivity. Qed.
+Example C05_ex_c_li_negative : ex_run_c "li" ["a0"; "-1"] (lit (-1)) 1 4096 [10] = Some ([125; 85], [4294967295], 4098).
+Proof. vm_compute. reflexivity. Qed.
+(* li a0, 0x12000 -> c.lui a0, 0x12 ; c.mv a0, a0 (the addi a0, a0, 0 is rendered as c.mv) *)
+Example C05_ex_c_li_lui_mv : ex_run_c "li" ["a0"; "0x12000"] (lit 73728) 2 4096 [10] = Some ([73; 101; 42; 133], [73728], 4100).
+Proof. vm_compute. reflexivity. Qed.
+(* li a0, 0x12001 -> c.lui a0, 0x12 ; c.addi a0, 1 *)
+Example C05_ex_c_li_lui_addi : ex_run_c "li" ["a0"; "0x12001"] (lit 73729) 2 4096 [10] = Some ([73; 101; 5; 5], [73729], 4100).
+Proof. vm_compute. reflexivity. Qed.
+(* li a0, 0x12345 -> c.lui a0, 0x12 ; addi a0, a0, 0x345 (6 bytes) *)
+Example C05_ex_c_li_lui_addi32 : ex_run_c "li" ["a0"; "0x12345"] (lit 74565) 2 4096 [10] = Some ([73; 101; 19; 5; 85; 52], [74565], 4102).
+Proof. vm_compute. reflexivity. Qed.
+(* li sp, 0x12010 -> lui sp, 0x12 (c.lui excludes x2) ; c.addi16sp 16 *)
+Example C05_ex_c_li_sp : ex_run_c "li" ["sp"; "0x12010"] (lit 73744) 2 4096 [2] = Some ([55; 33; 1; 0; 65; 97], [73744], 4102).
+Proof. vm_compute. reflexivity. Qed.
+(* li a0, 0x12345678 -> lui ; addi (8 bytes, nothing compressible) *)
+Example C05_ex_c_li_long : ex_run_c "li" ["a0"; "0x12345678"] (lit 305419896) 2 4096 [10] = Some ([55; 85; 52; 18; 19; 5; 133; 103], [305419896], 4104).
+Proof. vm_compute. reflexivity. Qed.
+(* li x0, 0 -> c.nop ; li x0, 0x1000 -> lui x0, 1 ; c.nop *)
+Example C05_ex_c_li_x0 : ex_run_c "li" ["x0"; "0"] (lit 0) 1 4096 [0; 1] = Some ([1; 0], [0; 1001], 4098).
+Proof. vm_compute. reflexivity. Qed.
+Example C05_ex_c_li_x0_long : ex_run_c "li" ["x0"; "0x1000"] (lit 4096) 2 4096 [0; 1] = Some ([55; 16; 0; 0; 1; 0], [0; 1001], 4102).
+Proof. vm_compute. reflexivity. Qed.
+(* mv a0, a1 -> c.mv ; mv a0, x0 -> c.li a0, 0 ; mv x0, a0 -> addi (kept) *)
+Example C05_ex_c_mv : ex_run_c "mv" ["a0"; "a1"] noimm 1 4096 [10; 11] = Some ([46; 133], [1011; 1011], 4098).
+Proof. vm_compute. reflexivity. Qed.
+Example C05_ex_c_mv_from_x0 : ex_run_c "mv" ["a0"; "x0"] noimm 1 4096 [10] = Some ([1; 69], [0], 4098).
+Proof. vm_compute. reflexivity. Qed.
+Example C05_ex_c_nop : ex_run_c "nop" [] noimm 1 4096 [1] = Some ([1; 0], [1001], 4098).
+Proof. vm_compute. reflexivity. Qed.
+(* ret -> c.jr ra ; jalr a0 -> c.jalr a0 (links pc + 2) ; jr x0 cannot be compressed *)
+Example C05_ex_c_ret : ex_run_c "ret" [] noimm 1 4096 [1] = Some ([130; 128], [1001], 1000).
+Proof. vm_compute. reflexivity. Qed.
+Example C05_ex_c_jalr : ex_run_c "jalr" ["a0"] noimm 1 4096 [1; 10] = Some ([2; 149], [4098; 1010], 1010).
+Proof. vm_compute. reflexivity. Qed.
+Example C05_ex_c_jr_x0 : ex_run_c "jr" ["x0"] noimm 1 4096 [1] = Some ([103; 0; 0; 0], [1001], 0).
+Proof. vm_compute. reflexivity. Qed.
+Example C05_ex_c_neg : ex_run_c "neg" ["s0"; "s0"] noimm 1 4096 [8] = Some ([51; 4; 128; 64], [4294966288], 4100).
+Proof. vm_compute. reflexivity. Qed.
+
+(* ==== the compressed rendering at RULE level, for every final layout (the form of C05_li ... C05_fence above) ====================
+   `compress_rule consts l it p ls = Done its'` is what the second compression pass does to an item `it` standing at position p
+   under the label table ls (Model/Passes.v transform_compressible = gpass (compress_rule consts));
+   `each_compressed consts l its its'` (Proofs/CodeLine.v): every item of its replaced by what compress_rule returns for it, each
+   at SOME position / label table.  The result is resolved and encoded (emit_bytes: the model's resolve_immediates,
+   resolve_instructions, resolve_blobs) at WHATEVER final position pos' and label table labels', loaded and run.
+   For the jumps / branches to a label the rule is selected on the distance seen when compressing, the offset encoded is the
+   distance at the final layout -- and that is where the compressed instruction goes. *)
+From BB Require Proofs.CodeLine Proofs.PseudoCompressedRule.
+Import Proofs.CodeLine.
+
+Theorem C05_li_compressed : forall consts l rd rest e pos labels its,
+  pseudo_rule consts l (IPseudo "li" (rd :: rest) (POk e)) pos labels = Done its ->
+  forall its', each_compressed consts l its its' ->
+  forall pos' labels' bs, emit_bytes l consts labels' pos' its' = Done bs ->
+  exists nrd v len, regnum (AStr rd) = Some nrd /\ eval_here l pos' consts labels' e = Done v /\
+    In len [2; 4; 6; 8] /\ zlen bs = len /\
+    forall s, loaded s bs ->
+      exists s', run_n (List.length its) s = Some s' /\ pc s' = wrap (pc s + len) /\ only_reg s s' nrd (wrap v).
+Proof. exact PseudoCompressedRule.li_compressed. Qed.
+
+Theorem C05_unary_compressed : forall name f, In (name, f) unary_doc ->
+  forall l consts rd rs pimm,
+  exists it, expand_pseudo l name [rd; rs] pimm = Done (One it) /\
+  forall p ls its', compress_rule consts l it p ls = Done its' ->
+  forall pos' labels' bs, emit_bytes l consts labels' pos' its' = Done bs ->
+  exists nrd nrs len, regnum (AStr rd) = Some nrd /\ regnum (AStr rs) = Some nrs /\ (len = 2 \/ len = 4) /\ zlen bs = len /\
+    forall s, loaded s bs ->
+      exists s', run_n 1 s = Some s' /\ pc s' = wrap (pc s + len) /\ only_reg s s' nrd (f (getr s nrs)).
+Proof. exact PseudoCompressedRule.unary_compressed. Qed.
+
+(* beqz / bnez may become c.beqz / c.bnez (rs in x8..x15, the label within +-256 bytes when the rule is consulted) *)
+Theorem C05_branch_zero_compressed : forall name c, In (name, c) branchz_doc ->
+  forall l consts rs ref pimm,
+  exists it, expand_pseudo l name [rs; ref] pimm = Done (One it) /\
+  forall p ls its', compress_rule consts l it p ls = Done its' ->
+  forall pos' labels' bs, emit_bytes l consts labels' pos' its' = Done bs ->
+  exists nrs dest len, regnum (AStr rs) = Some nrs /\ chain_get consts labels' ref = Some dest /\ (len = 2 \/ len = 4) /\
+    zlen bs = len /\
+    forall s, loaded s bs ->
+      exists s', run_n 1 s = Some s' /\ no_reg s s' /\
+        pc s' = if c (getr s nrs) then wrap (pc s + (dest - pos')) else wrap (pc s + len).
+Proof. exact PseudoCompressedRule.branchz_compressed. Qed.
+
+(* bgt ble bgtu bleu are never compressed (no rule for blt / bge / bltu / bgeu): C05_branch_two is their compressed rendering too *)
+Theorem C05_branch_two_compressed : forall name c, In (name, c) branch2_doc ->
+  forall l consts rs rt ref pimm,
+  exists it, expand_pseudo l name [rs; rt; ref] pimm = Done (One it) /\
+  forall p ls its', compress_rule consts l it p ls = Done its' -> its' = [it].
+Proof. exact PseudoCompressedRule.branch2_compressed. Qed.
+
+(* j -> c.j, jal -> c.jal: reach the label; link none / x1 <- pc + length *)
+Theorem C05_j_jal_compressed : forall name link, In (name, link) jump_doc ->
+  forall l consts ref pimm,
+  exists it, expand_pseudo l name [ref] pimm = Done (One it) /\
+  forall p ls its', compress_rule consts l it p ls = Done its' ->
+  forall pos' labels' bs, emit_bytes l consts labels' pos' its' = Done bs ->
+  exists dest len, chain_get consts labels' ref = Some dest /\ (len = 2 \/ len = 4) /\ zlen bs = len /\
+    forall s, loaded s bs ->
+      exists s', run_n 1 s = Some s' /\ pc s' = wrap (pc s + (dest - pos')) /\ only_reg s s' link (wrap (pc s + len)).
+Proof. exact PseudoCompressedRule.jump_compressed. Qed.
+
+Theorem C05_jr_jalr_compressed : forall name link, In (name, link) jumpr_doc ->
+  forall l consts rs pimm,
+  exists it, expand_pseudo l name [rs] pimm = Done (One it) /\
+  forall p ls its', compress_rule consts l it p ls = Done its' ->
+  forall pos' labels' bs, emit_bytes l consts labels' pos' its' = Done bs ->
+  exists nrs len, regnum (AStr rs) = Some nrs /\ (len = 2 \/ len = 4) /\ zlen bs = len /\
+    forall s, loaded s bs ->
+      exists s', run_n 1 s = Some s' /\ pc s' = getr s nrs - getr s nrs mod 2 /\ only_reg s s' link (wrap (pc s + len)).
+Proof. exact PseudoCompressedRule.jumpr_compressed. Qed.
+
+Theorem C05_ret_compressed : forall l consts args pimm,
+  exists it, expand_pseudo l "ret" args pimm = Done (One it) /\
+  forall p ls its', compress_rule consts l it p ls = Done its' ->
+  forall pos' labels' bs, emit_bytes l consts labels' pos' its' = Done bs ->
+  exists len, (len = 2 \/ len = 4) /\ zlen bs = len /\
+    forall s, loaded s bs -> exists s', run_n 1 s = Some s' /\ pc s' = getr s 1 - getr s 1 mod 2 /\ no_reg s s'.
+Proof. exact PseudoCompressedRule.ret_compressed. Qed.
+
+(* call / tail, one-instruction form (jal x1 -> c.jal, jal x0 -> c.j) *)
+Theorem C05_call_tail_near_compressed : forall name link scratch, In (name, (link, scratch)) calltail_doc ->
+  forall consts l ref pimm pos labels it,
+  pseudo_rule consts l (IPseudo name [ref] pimm) pos labels = Done [it] ->
+  forall p ls its', compress_rule consts l it p ls = Done its' ->
+  forall pos' labels' bs, emit_bytes l consts labels' pos' its' = Done bs ->
+  exists dest len, chain_get consts labels' ref = Some dest /\ (len = 2 \/ len = 4) /\ zlen bs = len /\
+    forall s, loaded s bs ->
+      exists s', run_n 1 s = Some s' /\ pc s' = wrap (pc s + (dest - pos')) /\ only_reg s s' link (wrap (pc s + len)).
+Proof. exact PseudoCompressedRule.calltail_near_compressed. Qed.
+
+(* call / tail, two-instruction form: x1 <- the address after the pair (pc + length of the pair) *)
+Theorem C05_call_far_compressed : forall consts l ref pimm pos labels it1 it2,
+  pseudo_rule consts l (IPseudo "call" [ref] pimm) pos labels = Done [it1; it2] ->
+  forall its', each_compressed consts l [it1; it2] its' ->
+  forall pos' labels' bs, emit_bytes l consts labels' pos' its' = Done bs ->
+  exists dest len, chain_get consts labels' ref = Some dest /\ (len = 6 \/ len = 8) /\ zlen bs = len /\
+    forall s, loaded s bs ->
+      exists s', run_n 2 s = Some s' /\
+        pc s' = wrap (pc s + (dest - pos')) - wrap (pc s + (dest - pos')) mod 2 /\
+        only_reg s s' 1 (wrap (pc s + len)).
+Proof. exact PseudoCompressedRule.call_far_compressed. Qed.
+
+Theorem C05_tail_far_compressed : forall consts l ref pimm pos labels it1 it2,
+  pseudo_rule consts l (IPseudo "tail" [ref] pimm) pos labels = Done [it1; it2] ->
+  forall its', each_compressed consts l [it1; it2] its' ->
+  forall pos' labels' bs, emit_bytes l consts labels' pos' its' = Done bs ->
+  exists dest len, chain_get consts labels' ref = Some dest /\ (len = 6 \/ len = 8) /\ zlen bs = len /\
+    forall s, loaded s bs ->
+      exists s', run_n 2 s = Some s' /\
+        pc s' = wrap (pc s + (dest - pos')) - wrap (pc s + (dest - pos')) mod 2 /\
+        only_reg s s' 6 (wrap (pc s + relocate_hi (dest - pos') * 4096)).
+Proof. exact PseudoCompressedRule.tail_far_compressed. Qed.
+
+Theorem C05_nop_compressed : forall l consts args pimm,
+  exists it, expand_pseudo l "nop" args pimm = Done (One it) /\
+  forall p ls its', compress_rule consts l it p ls = Done its' ->
+  forall pos' labels' bs, emit_bytes l consts labels' pos' its' = Done bs ->
+  exists len, (len = 2 \/ len = 4) /\ zlen bs = len /\
+    forall s, loaded s bs -> exists s', run_n 1 s = Some s' /\ pc s' = wrap (pc s + len) /\ no_reg s s'.
+Proof. exact PseudoCompressedRule.nop_compressed. Qed.
+
+Theorem C05_fence_compressed : forall l consts args pimm,
+  exists it, expand_pseudo l "fence" args pimm = Done (One it) /\
+  forall p ls its', compress_rule consts l it p ls = Done its' ->
+  forall pos' labels' bs, emit_bytes l consts labels' pos' its' = Done bs ->
+  zlen bs = 4 /\ forall s, loaded s bs -> exists s', run_n 1 s = Some s' /\ pc s' = wrap (pc s + 4) /\ no_reg s s'.
+Proof. exact PseudoCompressedRule.fence_compressed. Qed.
+
+Definition C05_compressed_rule_theorems := (C05_li_compressed, C05_unary_compressed, C05_branch_zero_compressed,
+  C05_branch_two_compressed, C05_j_jal_compressed, C05_jr_jalr_compressed, C05_ret_compressed, C05_call_tail_near_compressed,
+  C05_call_far_compressed, C05_tail_far_compressed, C05_nop_compressed, C05_fence_compressed).
+Print Assumptions C05_compressed_rule_theorems.
+
+(* concrete runs at rule level: expansion by pseudo_rule at (pos, labels); every emitted item through compress_rule at its
+   position under the same labels; the result resolved at the FINAL layout (pos', labels'), loaded at base and run;
+   result: (bytes, registers asked, pc) *)
+Fixpoint ex_compress (its : list item) (p : Z) (labels : envt) : option (list item) :=
+  match its with
+  | [] => Some []
+  | it :: r => match compress_rule [] ex_line it p labels with
+               | Done rs => match sizes rs, ex_compress r (p + 4) labels with
+                            | Done _, Some r' => Some (rs ++ r')
+                            | _, _ => None
+                            end
+               | _ => None
+               end
+  end.
+Definition ex_run_rule (name : string) (args : list string) (pimm : pres expr) (labels : envt) (pos : Z) (labels' : envt) (pos' : Z)
+  (base : Z) (ask : list Z) : option (list Z * list Z * Z) :=
+  match pseudo_rule [] ex_line (IPseudo name args pimm) pos labels with
+  | Done its =>
+      match ex_compress its pos labels with
+      | Some its' =>
+          match emit_bytes ex_line [] labels' pos' its' with
+          | Done bs => match run_n (List.length its) (ex_state base bs) with
+                       | Some s' => Some (bs, map (getr s') ask, pc s')
+                       | None => None
+                       end
+          | _ => None
+          end
+      | None => None
+      end
+  | _ => None
+  end.
+(* j T: T is 4 bytes ahead when the rule is consulted, 2 bytes ahead in the final layout (the jump itself shrank): c.j +2 *)
+Example C05_ex_c_j : ex_run_rule "j" ["T"] noimm [("T", 4)] 0 [("T", 2)] 0 4096 [1] = Some ([9; 160], [1001], 4098).
+Proof. vm_compute. reflexivity. Qed.
+(* beqz s0, T backwards, taken or not *)
+Example C05_ex_c_beqz_not_taken : ex_run_rule "beqz" ["s0"; "T"] noimm [("T", 0)] 16 [("T", 0)] 12 4108 [8] = Some ([117; 216], [1008], 4110).
+Proof. vm_compute. reflexivity. Qed.
+Example C05_ex_c_bnez_taken : ex_run_rule "bnez" ["s0"; "T"] noimm [("T", 0)] 16 [("T", 0)] 12 4108 [8] = Some ([117; 248], [1008], 4096).
+Proof. vm_compute. reflexivity. Qed.
+(* call T, near: c.jal, x1 <- pc + 2 *)
+Example C05_ex_c_call_near : ex_run_rule "call" ["T"] noimm [("T", 256)] 0 [("T", 200)] 0 4096 [1; 6] = Some ([225; 32], [4098; 1006], 4296).
+Proof. vm_compute. reflexivity. Qed.
+
+(* ... and as whole PROGRAMS with labels:   t0: <pseudo> ref ; t2:   through all 16 passes with compress = true (the pipeline on
+   this three-line program: Proofs/CodeLine.v one_instr_between_labels).  ref may be t0 (backwards, distance 0) or t2 (forwards).
+   When the instruction is rendered in 16 bits the label t2 moves from 4 to 2 and the offset encoded is the final distance. *)
+Theorem C05_j_jal_program_compressed : forall name link, In (name, link) jump_doc ->
+  forall l0 l1 l2 t0 t2 ref pimm r,
+  assemble_items [(l0, ILabel t0); (l1, IPseudo name [ref] pimm); (l2, ILabel t2)] [] [] true = Done r ->
+  exists dest len, chain_get [] (r_labels r) ref = Some dest /\ (len = 2 \/ len = 4) /\
+    zlen (flat_map PseudoEmit.chunk_bytes (r_chunks r)) = len /\ r_labels r = [(t0, 0); (t2, len)] /\
+    forall s, loaded s (flat_map PseudoEmit.chunk_bytes (r_chunks r)) ->
+      exists s', run_n 1 s = Some s' /\ pc s' = wrap (pc s + dest) /\ only_reg s s' link (wrap (pc s + len)).
+Proof. exact PseudoCompressedRule.jump_between_labels. Qed.
+
+Theorem C05_branch_zero_program_compressed : forall name c, In (name, c) branchz_doc ->
+  forall l0 l1 l2 t0 t2 rs ref pimm r,
+  assemble_items [(l0, ILabel t0); (l1, IPseudo name [rs; ref] pimm); (l2, ILabel t2)] [] [] true = Done r ->
+  exists nrs dest len, regnum (AStr rs) = Some nrs /\ chain_get [] (r_labels r) ref = Some dest /\ (len = 2 \/ len = 4) /\
+    zlen (flat_map PseudoEmit.chunk_bytes (r_chunks r)) = len /\ r_labels r = [(t0, 0); (t2, len)] /\
+    forall s, loaded s (flat_map PseudoEmit.chunk_bytes (r_chunks r)) ->
+      exists s', run_n 1 s = Some s' /\ no_reg s s' /\
+        pc s' = if c (getr s nrs) then wrap (pc s + dest) else wrap (pc s + len).
+Proof. exact PseudoCompressedRule.branchz_between_labels. Qed.
+
+Definition C05_compressed_label_programs := (C05_j_jal_program_compressed, C05_branch_zero_program_compressed).
+Print Assumptions C05_compressed_label_programs.
+
+Definition ex_prog3 (name : string) (args : list string) : list litem :=
+  [(ex_line, ILabel "A"); (ex_line, IPseudo name args noimm); (ex_line, ILabel "B")].
+Example C05_ex_c_program_j_forward :
+  exists r, assemble_items (ex_prog3 "j" ["B"]) [] [] true = Done r /\ r_labels r = [("A", 0); ("B", 2)]
+            /\ flat_map PseudoEmit.chunk_bytes (r_chunks r) = [9; 160].
+Proof. eexists. repeat split; vm_compute; reflexivity. Qed.
+Example C05_ex_c_program_bnez_backward :
+  exists r, assemble_items (ex_prog3 "bnez" ["a5"; "A"]) [] [] true = Done r /\ r_labels r = [("A", 0); ("B", 2)]
+            /\ flat_map PseudoEmit.chunk_bytes (r_chunks r) = [129; 227].
+Proof. eexists. repeat split; vm_compute; reflexivity. Qed.
+Example C05_ex_c_program_bnez_not_compressible :
+  exists r, assemble_items (ex_prog3 "bnez" ["t0"; "B"]) [] [] true = Done r /\ r_labels r = [("A", 0); ("B", 4)]
+            /\ List.length (flat_map PseudoEmit.chunk_bytes (r_chunks r)) = 4%nat.
+Proof. eexists. repeat split; vm_compute; reflexivity. Qed.
+
+(* The generic step behind the label-free theorems above (Proofs/RuleStep.v), for any item view i: when the GENERATED selection
+   picks rule r for i and the compressed encoder accepts operands args that READ (Spec/Operands.v operands16: any register
+   spelling) as the numeric operands of the rule, the halfword executes -- one step of the fetching machine -- exactly like the
+   32-bit instruction ins that the view names, taken with length 2: same pc, same register readings, the same memory
+   (ostrong / strong_eq: Proofs/RuleStep.v).  Built from the C04 rule sweeps (C04_rule_sound), C02 and the halfword fetch. *)
+From BB Require Gen.Criteria Spec.RVC Proofs.Rules Proofs.RulesMain Proofs.RulesSem Proofs.RuleStep.
+Theorem C05_rule_step : forall i r final cls cfs args h,
+  select_rule Gen.Criteria.criteria i = Ok (Some r) -> Rules.wf_view (Rules.nview_of i) ->
+  assoc_str r Gen.Criteria.construction = Some (final, cls, cfs) ->
+  Model.Encode.encode final args [] = Ok h ->
+  (forall ops, operands16 final args = Some ops -> operands16 final (RulesMain.pos16_of (Rules.nview_of i) cfs) = Some ops) ->
+  exists fs0 o32 ins,
+    Rules.orig_fields (iv_name i) = Some fs0 /\ operands32 (iv_name i) (RulesMain.pos32_of (Rules.nview_of i) fs0) [] = Some o32 /\
+    denote32 (iv_name i) o32 = Some ins /\
+    forall s, loaded s (RulesSem.half_bytes h) -> RuleStep.ostrong (run_n 1 s) (step ins 2 s).
+Proof. exact RuleStep.rule_step. Qed.
+Print Assumptions C05_rule_step.
